@@ -141,7 +141,7 @@ def main():
                 "engine": "fibre-facts+rules",
                 "level_claimed": {"category": "other", "text": text, "design_ref": ref},
                 "level_note": TB,
-                "technique": "static analysis: " + tech,
+                "technique": "static analysis: " + tech + ("; thorough tier: compile_fail doctest witnesses with compiling twins (rustc nightly)" if pid in ("C01", "C07", "C10") else ""),
             })
         elif pid in NOT_APPLICABLE:
             na.append({"property_id": pid, "reason": NOT_APPLICABLE[pid]})
